@@ -9,7 +9,15 @@
 // A scenario is one maximal path of the specification's state graph: a (body script, consumer
 // script) pair with its execution.  Internal specification actions (BodyResume, BodyStep, ...,
 // SyncReturn) are merged into the public call that contains them, so a step is one of
-//     NextSync("sync"|"begin"|"inc"|"postinc")   NextAsync   NextFuture   ExternalResolve(k)   Destroy
+//     NextSync("sync"|"begin"|"inc"|"postinc"|"kbool")   NextAsync("coawait"|"kco")   NextFuture   ExternalResolve(k)   Destroy
+// "kbool" / "kco": accesses through ONE next() object the consumer keeps (`auto nx = gen.next();`) and reuses:
+// `if (nx) gen.value()` and `co_await nx` (in mode cb: nx.subscribe(awaiter) with await_ready / await_resume called by
+// hand); the object's cached flag _state is projected as "nx".
+// The body's throw steps ("throw", "thr_nomore", "thr_cancel", "thr_notready", "thr_nolonger", "thr_nonstd") throw an
+// application exception, the library's own exception types (thr_nomore every other time by really stepping a
+// finished source generator once more) and a type not derived from std::exception.  The harness remembers THE
+// exception object that left the body; a consumer reports "exc" (with the code of its dynamic type) only for that very
+// object, so an exception the library made up itself is never mistaken for the body's.
 // The body script is not visible in the merged labels: it is read from the `bscript` history of the
 // LAST step's expected projection (the whole scenario is in memory); the body coroutine interprets
 // it.  After EVERY step the projection of the real objects is compared with the specification.
@@ -55,6 +63,19 @@ using cocls_verif::vsched;
 using cocls_verif::op_t;
 
 struct TestExc : std::exception {};
+struct NonStd { int tag; };      // not derived from std::exception
+
+// ExcCode of the specification, from the dynamic type of an exception
+static int exc_code(const std::exception_ptr &e) {
+    try { std::rethrow_exception(e); }
+    catch (const TestExc &) { return 1; }
+    catch (const cocls::no_more_values_exception &) { return 2; }
+    catch (const cocls::await_canceled_exception &) { return 3; }
+    catch (const cocls::value_not_ready_exception &) { return 4; }
+    catch (const cocls::no_longer_avaible_exception &) { return 5; }
+    catch (const NonStd &n) { return n.tag == 42 ? 6 : -6; }
+    catch (...) { return -1; }
+}
 
 // ---------------------------------------------------------------------------------------------
 // allocation accounting (C20: stepping a synchronous generator allocates nothing of its own).
@@ -170,8 +191,8 @@ struct Obs {
 };
 struct Got { int a; int v; };
 
-enum Kind { K_SYNC, K_BEGIN, K_INC, K_POSTINC, K_COAWAIT, K_FUTURE, K_DESTROY, K_RESOLVE, K_OBJ, K_QUIT };
-static inline bool is_access(Kind k) { return k <= K_FUTURE; }
+enum Kind { K_SYNC, K_BEGIN, K_INC, K_POSTINC, K_COAWAIT, K_FUTURE, K_KBOOL, K_KCO, K_DESTROY, K_RESOLVE, K_OBJ, K_QUIT };
+static inline bool is_access(Kind k) { return k <= K_KCO; }
 static const char *const OBJ_KINDS[] = {"movector", "assign_empty", "assign_fresh", "assign_yield", "assign_final",
                                         "swap_fresh", "swap_yield", "swap_final"};
 struct Cmd { Kind kind = K_QUIT; int idx = 0; };
@@ -255,8 +276,8 @@ G body_fn(World<G> *w, Param) {
             int r = co_await f;
             w->bst = "run";
             if (r != k) w->body_error = "await of a pending future returned a wrong value";
-        } else if (kind == "throw") {
-            throw TestExc();
+        } else if (kind.compare(0, 3, "thr") == 0) {
+            body_throw(w, kind, pos);                        // the exception leaves the body
         } else if (kind == "return") {
             co_return;
         } else {
@@ -266,6 +287,57 @@ G body_fn(World<G> *w, Param) {
     }
 #undef DO_YIELD
 }
+
+// a source generator with one item, for a body that reads it past its end
+static cocls::generator<int> one_item_source() { co_yield 1; }
+
+// what the body's throw steps do (plain function: the exception propagates through the body and leaves it); the
+// exception object is remembered so that the consumer can tell it from exceptions the library creates itself
+template <typename G>
+[[noreturn]] void body_throw(World<G> *w, const std::string &kind, std::size_t pos) {
+    try {
+        if (kind == "throw") throw TestExc();
+        if (kind == "thr_nomore") {
+            if (pos & 1) {
+                // the natural source of this type: a finished generator is called once more (generator.h:247)
+                std::optional<cocls::generator<int>> src;
+                { Pause hp; src.emplace(one_item_source()); }
+                struct Drop { std::optional<cocls::generator<int>> &s; ~Drop() { Pause hp; s.reset(); } } drop{src};
+                for (int n = 0; n < 4; n++) {
+                    cocls::future<int> f = (*src)();      // item, end, then no_more_values_exception
+                    if (n == 0 && (!f.has_value() || *f != 1)) w->body_error = "source generator: wrong item";
+                    if (n == 1 && f.has_value()) w->body_error = "source generator: end expected";
+                    if (n >= 2) w->body_error = "source generator: stepping past the end did not throw";
+                }
+            }
+            throw cocls::no_more_values_exception();
+        }
+        if (kind == "thr_cancel") throw cocls::await_canceled_exception();
+        if (kind == "thr_notready") throw cocls::value_not_ready_exception();
+        if (kind == "thr_nolonger") throw cocls::no_longer_avaible_exception();
+        if (kind == "thr_nonstd") throw NonStd{42};
+        w->body_error = "unknown throw step " + kind;
+        throw TestExc();
+    } catch (...) {
+        w->thrown = std::current_exception();
+        throw;
+    }
+}
+
+// the consumer's kept next() object: auto nx = gen.next();
+template <typename G> struct KeptNext {
+    typename G::next_awt a;
+    explicit KeptNext(G &g) : a(make(g)) {}
+    static typename G::next_awt make(G &g) {
+        if constexpr (G::arg_is_void) return g.next();
+        else return typename G::next_awt(g);       // never used: kept styles are for generators without argument
+    }
+};
+#ifndef GEN_NO_PRIVATE
+template <typename G> struct NxProbe : G::next_awt {
+    static bool state(typename G::next_awt &a) { return a.*(&NxProbe::_state); }
+};
+#endif
 
 // the body of the OTHER generators the object-level operations replace: a RAII local, one item, the end
 template <typename G>
@@ -301,6 +373,7 @@ template <typename G> struct SubAwt : cocls::awaiter {
 };
 
 template <typename G> cocls::async<void> co_access(World<G> &w, int i);
+template <typename G> cocls::async<void> co_access_kept(World<G> &w, int i);
 template <typename G> cocls::async<void> consumer(World<G> &w);
 
 // ---------------------------------------------------------------------------------------------
@@ -334,6 +407,9 @@ struct World {
     void *frame = nullptr;
     std::string it = "none";
     std::optional<typename G::iterator> iter;
+    std::optional<KeptNext<G>> kept;                 // the consumer's kept next() object
+    bool kept_last = false;                          // what it told the consumer last
+    std::exception_ptr thrown;                       // THE exception object that left the body
     int helpers_started = 0, helpers_finished = 0;
     std::string consumer_error;
     bool leaked = false;
@@ -355,13 +431,14 @@ struct World {
     Reporter *repp = nullptr;
     std::size_t kcur = 0;
     int cb_access = 0;
+    bool cb_kept = false;
     bool cb_bad = false;
 
     World() { obs.reserve(64); args.resize(64); for (int i = 0; i < 64; i++) args[i].set(100 + i); }
 
     // the body executed so far is synchronous (co_yield / co_yield nullptr / throw / return only)
     bool sync_so_far() const {
-        for (auto &k : bdone) if (k != "yield" && k != "yt" && k != "yv" && k != "ym" && k != "ynull" && k != "throw" && k != "return") return false;
+        for (auto &k : bdone) if (k != "yield" && k != "yt" && k != "yv" && k != "ym" && k != "ynull" && k.compare(0, 3, "thr") != 0 && k != "return") return false;
         return true;
     }
 
@@ -369,16 +446,30 @@ struct World {
     bool hdone() { return std::coroutine_handle<promise_type>::from_address(frame).done(); }
 
     // ---- observations of the consumer -----------------------------------------------------
+    // called from inside a catch (...) handler: what the consumer caught.  THE object that left the body: "exc" with
+    // the code of its type; otherwise an exception the library created: no_more_values_exception = the access itself
+    // refused ("nomore"), value_not_ready_exception ("notready"); `canceled_is_end`: an await_canceled_exception made by a
+    // future that was resolved without value is the end indication of that access form
+    bool is_thrown(const std::exception_ptr &e) const { return thrown && e == thrown; }
+    void caught(Obs &o, bool canceled_is_end = false) {
+        std::exception_ptr e = std::current_exception();
+        o.v = 0;
+        if (is_thrown(e)) { o.r = "exc"; o.v = exc_code(e); return; }
+        try { std::rethrow_exception(e); }
+        catch (const cocls::no_more_values_exception &) { o.r = "nomore"; }
+        catch (const cocls::value_not_ready_exception &) { o.r = "notready"; }
+        catch (const cocls::await_canceled_exception &) { o.r = canceled_is_end ? "end" : "other_exception"; }
+        catch (...) { o.r = "other_exception"; }
+    }
     void observe_next(Obs &o, bool b) {
         if (b) {
             try { o.v = gen->value(); o.r = "val"; }
-            catch (const TestExc &) { o.r = "exc"; o.v = 0; }
-            catch (const cocls::value_not_ready_exception &) { o.r = "notready"; o.v = 0; }
+            catch (...) { caught(o); if (o.r == "nomore") o.r = "other_exception"; }
         } else {
             // end reported: there must be no value either
             try { o.v = gen->value(); }
-            catch (const TestExc &) { o.v = 999; }
-            catch (const cocls::value_not_ready_exception &) { o.v = 0; }
+            catch (const cocls::value_not_ready_exception &) { o.v = is_thrown(std::current_exception()) ? 999 : 0; }
+            catch (...) { o.v = 999; }
             o.r = "end";
         }
     }
@@ -388,12 +479,13 @@ struct World {
         if (bool(f) != hv || (!f) == hv) { o.r = "has_value_inconsistent"; return; }
         if (!hv) {
             try { (void) f.value(); o.r = "end_with_value"; }
-            catch (const cocls::await_canceled_exception &) { o.r = "end"; o.v = 0; }
+            catch (const cocls::await_canceled_exception &) {
+                if (is_thrown(std::current_exception())) o.r = "end_with_exception"; else { o.r = "end"; o.v = 0; }
+            }
             catch (...) { o.r = "end_other_exception"; }
         } else {
             try { o.v = (i & 1) ? *f : f.value(); o.r = "val"; }
-            catch (const TestExc &) { o.r = "exc"; o.v = 0; }
-            catch (...) { o.r = "other_exception"; }
+            catch (...) { caught(o); if (o.r != "exc") o.r = "other_exception"; }
         }
     }
 
@@ -439,8 +531,26 @@ struct World {
                 if (gen->next()) observe_next(o, true);
                 else observe_next(o, false);
             }
-        } catch (const cocls::no_more_values_exception &) { o.r = "nomore"; }
-        catch (...) { o.r = "other_exception"; }
+        } catch (...) { caught(o); }
+    }
+
+    // if (nx) v = gen.value();  on the kept object: made at the first use; a conversion after the object said "item
+    // loaded" does not ask the generator again -- the consumer reads the item it has once more ("again")
+    void kept_make() { if (!kept) { kept.emplace(*gen); kept_last = false; } }
+    void kbool_access(int i) {
+        Obs &o = obs[i - 1];
+        Win win;
+        try {
+            kept_make();
+            bool again = kept_last;
+            bool b;
+            if (i & 1) b = bool(kept->a); else b = !(!kept->a);
+            kept_last = b;
+            if (!again) { observe_next(o, b); return; }
+            if (!b) { o.r = "again_lost"; return; }
+            try { o.v = gen->value(); o.r = "again"; }
+            catch (...) { caught(o); if (o.r == "exc") { o.r = "again"; o.v += 900; } else o.r = "again_other_exception"; }
+        } catch (...) { caught(o); }
     }
 
     // explicit iterator: it = gen.begin(); ++it; it++; it != gen.end(); *it
@@ -457,11 +567,9 @@ struct World {
                 it = b ? "true" : "false";
                 if (b) {
                     try { o.v = **iter; o.r = "val"; }
-                    catch (const TestExc &) { o.r = "exc"; o.v = 0; }
-                    catch (const cocls::value_not_ready_exception &) { o.r = "notready"; }
+                    catch (...) { caught(o); if (o.r == "nomore") o.r = "other_exception"; }
                 } else observe_next(o, false);
-            } catch (const cocls::no_more_values_exception &) { o.r = "nomore"; }
-            catch (...) { o.r = "other_exception"; }
+            } catch (...) { caught(o); }
         }
     }
 
@@ -482,8 +590,7 @@ struct World {
             // own thread: every other future is waited for like `*gen()` does (blocks in the future's
             // sync_awaiter until the body, continued by the completing thread, has yielded or ended)
             if (ct >= 0 && (i & 1)) futs[i]->sync();
-        } catch (const cocls::no_more_values_exception &) { o.r = "nomore"; futs.erase(i); }
-        catch (...) { o.r = "other_exception"; futs.erase(i); }
+        } catch (...) { caught(o); if (o.r != "nomore") o.r = "other_exception"; futs.erase(i); }
     }
 
     void poll_futures() {
@@ -503,6 +610,7 @@ struct World {
     }
     void obj_op(int kind) {
         iter.reset(); it = "none";
+        kept.reset();                          // refers to the object that is about to be moved from
         const std::string k = OBJ_KINDS[kind];
         if (k == "movector") {
             G b(std::move(*gen));
@@ -533,12 +641,13 @@ struct World {
     // exactly once; the never started newcomer then dies with the object
     void destroy_gen() {
         iter.reset();
+        kept.reset();
         if (gen && (cur & 1)) *gen = aux_fn<G>(this, Param(&aux_par));
         gen.reset();
     }
     void exec_native(const Cmd &c) {
         if (c.kind == K_OBJ) { obj_op(c.idx); return; }
-        if (c.kind != K_DESTROY && !iter && (c.idx & 1) == 0) {
+        if (c.kind != K_DESTROY && !iter && !kept && (c.idx & 1) == 0) {
             G tmp = std::move(*gen);       // generators are movable; adapters created later refer to the new object
             gen.emplace(std::move(tmp));
         }
@@ -546,6 +655,8 @@ struct World {
             case K_SYNC: sync_access(c.idx); break;
             case K_BEGIN: case K_INC: case K_POSTINC: iter_access(c.kind, c.idx); break;
             case K_COAWAIT: helpers_started++; co_access<G>(*this, c.idx).detach(); break;
+            case K_KBOOL: kbool_access(c.idx); break;
+            case K_KCO: { Pause hp; kept_make(); } helpers_started++; co_access_kept<G>(*this, c.idx).detach(); break;
             case K_FUTURE: future_access(c.idx); break;
             case K_DESTROY: destroy_gen(); break;
             default: break;
@@ -567,21 +678,20 @@ struct World {
         if (kcur >= scp->steps.size()) return;
         const Step &st = scp->steps[kcur];
         if (st.name == "NextFuture") cb_issue(K_FUTURE);
-        else if (st.name == "NextAsync") cb_issue(K_COAWAIT);
+        else if (st.name == "NextAsync") cb_issue(async_kind(st));
     }
     void cb_future_done(cocls::future<V> &f) {
         Obs &o = obs[cb_access - 1];
         if (!f.has_value()) { o.r = "end"; o.v = 0; }
         else {
             try { o.v = *f; o.r = "val"; }
-            catch (const TestExc &) { o.r = "exc"; o.v = 0; }
-            catch (const cocls::no_more_values_exception &) { o.r = "nomore"; o.v = 0; }   // thrown by gen(), stored by operator<<
-            catch (...) { o.r = "other_exception"; }
+            catch (...) { caught(o); if (o.r != "exc" && o.r != "nomore") o.r = "other_exception"; }   // nomore: thrown by gen(), stored by operator<<
         }
         cb_completed();
     }
     void cb_next_done() {
-        observe_next(obs[cb_access - 1], !gen->done());
+        if (cb_kept) { bool b = kept->a.await_resume(); kept_last = b; observe_next(obs[cb_access - 1], b); }
+        else observe_next(obs[cb_access - 1], !gen->done());
         cb_completed();
     }
     void cb_issue(Kind kind) {
@@ -590,9 +700,11 @@ struct World {
         {
             Pause hp;
             i = ++cur;
-            cdone.push_back(kind == K_FUTURE ? "future" : "coawait");
+            cdone.push_back(style_name(kind));
             obs.emplace_back();
             cb_access = i;
+            cb_kept = kind == K_KCO;
+            if (cb_kept) kept_make();
             fut_addr.clear();
             if (kind == K_FUTURE) fut_addr[i] = cbawt.fut_address();
         }
@@ -601,13 +713,19 @@ struct World {
             Win win;
             if (kind == K_FUTURE) {
                 cbawt << [&] { return call_(i); };       // an exception of gen() becomes the future's result
+            } else if (kind == K_KCO) {
+                // the kept object used as what it is, an awaiter: await_ready / subscribe / await_resume by hand
+                try {
+                    auto &a = kept->a;
+                    if (a.await_ready()) { bool b = a.await_resume(); kept_last = b; observe_next(obs[i - 1], b); inline_done = true; }
+                    else a.subscribe(&subawt);
+                } catch (...) { caught(obs[i - 1]); if (obs[i - 1].r != "nomore") obs[i - 1].r = "other_exception"; inline_done = true; }
             } else {
                 try {
                     auto a = next_(i);
                     if (a.await_ready()) { observe_next(obs[i - 1], a.await_resume()); inline_done = true; }
                     else a.subscribe(&subawt);
-                } catch (const cocls::no_more_values_exception &) { obs[i - 1].r = "nomore"; inline_done = true; }
-                catch (...) { obs[i - 1].r = "other_exception"; inline_done = true; }
+                } catch (...) { caught(obs[i - 1]); if (obs[i - 1].r != "nomore") obs[i - 1].r = "other_exception"; inline_done = true; }
             }
             if (inline_done) cb_completed();
         }
@@ -624,7 +742,7 @@ struct World {
             const Step &st = sc.steps[k];
             Cmd c;
             if (st.name == "NextFuture") cb_issue(K_FUTURE);
-            else if (st.name == "NextAsync") cb_issue(K_COAWAIT);
+            else if (st.name == "NextAsync") cb_issue(async_kind(st));
             else if (parse_cmd(st, c)) {
                 if (is_access(c.kind)) {
                     c.idx = ++cur;
@@ -646,6 +764,7 @@ struct World {
         }
         if (cb_bad) { leaked = true; return; }
         iter.reset();
+        kept.reset();
         gen.reset();
         if (par_live != 0 || loc_ctor != loc_dtor) rep.diverge(sc.steps.size() - 1, "locals/parameters not destroyed exactly once at the end");
     }
@@ -705,6 +824,11 @@ struct World {
         for (auto &x : got) { J e = J::map(); e.set("a", x.a); e.set("v", x.v); g.push(e); }
         m.set("got", g);
         m.set("it", it);
+#ifndef GEN_NO_PRIVATE
+        m.set("nx", !kept ? "none" : NxProbe<G>::state(kept->a) ? "item" : "unknown");
+#else
+        m.set("nx", !kept ? "none" : kept_last ? "item" : "unknown");
+#endif
         J l = J::map();
         l.set("ctor", loc_ctor); l.set("dtor", loc_dtor);
         m.set("loc", l);
@@ -768,10 +892,11 @@ struct World {
     static bool parse_cmd(const Step &st, Cmd &c) {
         if (st.name == "NextSync") {
             const std::string &s = st.sarg(0);
-            c.kind = s == "sync" ? K_SYNC : s == "begin" ? K_BEGIN : s == "inc" ? K_INC : s == "postinc" ? K_POSTINC : K_QUIT;
+            c.kind = s == "sync" ? K_SYNC : s == "begin" ? K_BEGIN : s == "inc" ? K_INC : s == "postinc" ? K_POSTINC :
+                     s == "kbool" ? K_KBOOL : K_QUIT;
             return c.kind != K_QUIT;
         }
-        if (st.name == "NextAsync") { c.kind = K_COAWAIT; return true; }
+        if (st.name == "NextAsync") { c.kind = async_kind(st); return true; }
         if (st.name == "NextFuture") { c.kind = K_FUTURE; return true; }
         if (st.name == "Destroy") { c.kind = K_DESTROY; return true; }
         if (st.name == "ObjOp") {
@@ -779,8 +904,10 @@ struct World {
         }
         return false;
     }
+    static Kind async_kind(const Step &st) { return st.sarg(0) == "kco" ? K_KCO : K_COAWAIT; }
     static const char *style_name(Kind k) {
         switch (k) {
+            case K_KBOOL: return "kbool"; case K_KCO: return "kco";
             case K_SYNC: return "sync"; case K_BEGIN: return "begin"; case K_INC: return "inc";
             case K_POSTINC: return "postinc"; case K_COAWAIT: return "coawait"; case K_FUTURE: return "future";
             default: return "?";
@@ -892,6 +1019,7 @@ struct World {
             if (!consumer_finished && !bad) { rep.diverge(sc.steps.size() - 1, "consumer coroutine never came back got=" + project().dump()); bad = true; }
         }
         iter.reset();
+        kept.reset();
         gen.reset();
         futs.clear();
         if (!bad) {
@@ -915,10 +1043,26 @@ cocls::async<void> co_access(World<G> &w, int i) {
             }
         } else b = co_await w.gen->next();
         w.observe_next(w.obs[i - 1], b);
-    } catch (const cocls::no_more_values_exception &) {
-        w.obs[i - 1].r = "nomore";
     } catch (...) {
-        w.obs[i - 1].r = "other_exception";
+        w.caught(w.obs[i - 1]);
+    }
+    --t_window;
+    w.helpers_finished++;
+}
+
+// co_await nx on the consumer's KEPT next() object, by a coroutine of its own (native / threaded modes): the object is
+// awaited again and again, by a different coroutine each time
+// (a function of its own: g++ 12 mishandles a co_await of a temporary that shares a statement list with other co_awaits)
+template <typename G>
+cocls::async<void> co_access_kept(World<G> &w, int i) {
+    ++t_window;
+    try {
+        auto &nx = w.kept->a;        // (a named reference: g++ 12 also mishandles co_await of `opt->member` directly)
+        bool b = co_await nx;
+        w.kept_last = b;
+        w.observe_next(w.obs[i - 1], b);
+    } catch (...) {
+        w.caught(w.obs[i - 1]);
     }
     --t_window;
     w.helpers_finished++;
@@ -937,6 +1081,19 @@ cocls::async<void> consumer(World<G> &w) {
         int i = c.idx;
         switch (c.kind) {
             case K_SYNC: w.sync_access(i); break;
+            case K_KBOOL: w.kbool_access(i); break;
+            case K_KCO: {
+                // auto nx = gen.next(); for (;;) { bool b = co_await nx; ... }   (not `while (co_await ...)`: g++ 12)
+                ++t_window;
+                try {
+                    w.kept_make();
+                    auto &nx = w.kept->a;
+                    bool b = co_await nx;
+                    w.kept_last = b;
+                    w.observe_next(w.obs[i - 1], b);
+                } catch (...) { w.caught(w.obs[i - 1]); }
+                --t_window;
+            } break;
             case K_COAWAIT: {
                 ++t_window;
                 try {
@@ -949,7 +1106,7 @@ cocls::async<void> consumer(World<G> &w) {
                         }
                     } else b = co_await w.gen->next();
                     w.observe_next(w.obs[i - 1], b);
-                } catch (const cocls::no_more_values_exception &) { w.obs[i - 1].r = "nomore"; }
+                } catch (...) { w.caught(w.obs[i - 1]); }
                 --t_window;
             } break;
             case K_RESOLVE: w.resolve(c.idx); break;
@@ -967,18 +1124,19 @@ cocls::async<void> consumer(World<G> &w) {
                         if (!hv) { o.r = "end"; o.v = 0; }
                         else {
                             try { o.v = *f; o.r = "val"; }
-                            catch (const TestExc &) { o.r = "exc"; }
+                            catch (...) { w.caught(o); if (o.r != "exc") o.r = "other_exception"; }
                         }
                     } else {
                         // co_await the future directly
                         Obs &o = w.obs[i - 1];
                         cocls::future<V> f = w.call_(i);
                         w.fut_addr[i] = &f;
+                        // (a future resolved without value throws await_canceled_exception here: the end indication of
+                        //  this form, unless it is the very exception the body threw)
                         try { o.v = co_await f; o.r = "val"; }
-                        catch (const TestExc &) { o.r = "exc"; }
-                        catch (const cocls::await_canceled_exception &) { o.r = "end"; o.v = 0; }
+                        catch (...) { w.caught(o, true); if (o.r != "exc" && o.r != "end") o.r = "other_exception"; }
                     }
-                } catch (const cocls::no_more_values_exception &) { w.obs[i - 1].r = "nomore"; }
+                } catch (...) { w.caught(w.obs[i - 1]); if (w.obs[i - 1].r != "nomore") w.obs[i - 1].r = "other_exception"; }
                 --t_window;
                 { Pause hp; w.fut_addr.erase(i); }
             } break;
@@ -1003,13 +1161,12 @@ cocls::async<void> consumer(World<G> &w) {
                         win.off();
                         if (!have) w.iter.emplace(*w.gen, false);
                         else w.iter.emplace(*w.gen, true);      // equivalent of the abandoned loop iterator
-                    } catch (const TestExc &) {
+                    } catch (...) {
+                        // out of the range-for: THE exception of the body (thrown by *it) or the refusal of begin() / ++it
                         win.off();
-                        w.obs[i - 1].r = "exc"; w.it = "true"; w.iter.emplace(*w.gen, true);
-                    } catch (const cocls::no_more_values_exception &) {
-                        win.off();
-                        w.obs[i - 1].r = "nomore";
-                        if (entered) w.iter.emplace(*w.gen, true);
+                        w.caught(w.obs[i - 1]);
+                        if (w.obs[i - 1].r == "exc") { w.it = "true"; w.iter.emplace(*w.gen, true); }
+                        else if (w.obs[i - 1].r == "nomore") { if (entered) w.iter.emplace(*w.gen, true); }
                     }
                 }
             } break;
